@@ -505,6 +505,22 @@ def run(chk):
     asg = [n for n in walk_no_nested(init.node) if isinstance(n, ast.Assign) and any(is_self_attr(t, "_use_vpc") for t in n.targets)]
     ok = len(asg) == 1 and isinstance(asg[0].value, ast.Call) and call_name(asg[0].value) in ("int", "bool") and len(asg[0].value.args) == 1 and isinstance(asg[0].value.args[0], ast.Name) and asg[0].value.args[0].id == "use_vpc"
     r4.expect(ok, "self._use_vpc = int(use_vpc)", "AWSElastiCacheHashClient.__init__:use_vpc", "self._use_vpc is `%s`, not int(use_vpc)" % (node_src(asg[0].value) if asg else None), fn=init)
+    # the configuration of the client is what the constructor was given: no later call rewrites it (an address mode that
+    # one odd reply switches stays switched for every later re-discovery)
+    CONFIG = ("_use_vpc", "_cfg_node", "default_kwargs")
+    for m in aws.methods.values():
+        if m.name == "__init__":
+            continue
+        for n in ast.walk(m.node):
+            w = None
+            if isinstance(n, ast.Attribute) and isinstance(n.ctx, (ast.Store, ast.Del)) and is_self_attr(n) and n.attr in CONFIG:
+                w = n.attr
+            elif isinstance(n, ast.Subscript) and isinstance(n.ctx, (ast.Store, ast.Del)) and is_self_attr(n.value) and n.value.attr in CONFIG:
+                w = n.value.attr
+            elif isinstance(n, ast.Call) and isinstance(n.func, ast.Attribute) and is_self_attr(n.func.value) and n.func.value.attr in CONFIG and n.func.attr in ("update", "pop", "clear", "setdefault", "popitem"):
+                w = n.func.value.attr
+            if w is not None:
+                r4.fail("AWSElastiCacheHashClient.%s:rewrites-configuration:%s" % (m.name, w), "%s changes self.%s: the configuration given to the constructor (address mode, endpoint, client options) no longer holds for the re-discoveries that follow" % (m.qualname, w), fn=m, node=n)
     rows = discovery_rows(prog, gnl)
     for use_vpc, desc, got, want, info in rows:
         r4.expect(got == want, "use_vpc=%d, %s -> %s" % (use_vpc, desc, want), "AWSElastiCacheHashClient._get_nodes_list:address-selection", "with use_vpc=%d and the config reply %s the node list is %s; documented: host = element %d (%s) and port = element 2 of each `name|ip|port` triple, i.e. %s" % (use_vpc, desc, got, use_vpc, "the IP address" if use_vpc else "the host name", want), fn=gnl)
@@ -532,5 +548,10 @@ def run(chk):
                 if "_readsegment" in fnd.key or "_misc_cmd" in fnd.key:
                     r5.fail("via-" + fnd.key, "the reader that delivers the config reply is split-dependent: " + fnd.msg, file=fnd.file, line=fnd.line)
     r5.ok("the token-terminated reader behind raw_command satisfies C03.R1/R4 (%d obligations re-checked here)" % n_sub)
+    # ------------------------------------------------------------------ R6 histories of re-discoveries
+    r6 = chk.rule("C19.R6", "histories: the AWS client interpreted on a concrete cluster under every sequence of operations, re-discoveries with another advertised node list, failures of a node and elapsed time (depth 7): after every re-discovery rotation and client table are exactly the advertised nodes, dropped client objects are closed once and live ones never; every operation contacts advertised nodes only and nothing but the node's own error escapes")
+    from . import failhist
+
+    failhist.reconfigure_histories(prog, r6, chk.tier)
     chk.assume("delivery independence of raw_command's reader is decided by the C03.R1/R4 rules, re-run here for the segment reader")
     chk.assume("once hasher nodes == clients keys == advertised nodes, routing is C11/C12")
